@@ -1035,6 +1035,30 @@ recv:
 // child entry point
 // ---------------------------------------------------------------------------------------
 
+var reGoState = regexp.MustCompile(`(?m)^goroutine \d+ \[(runnable|running)[\],]`)
+
+// quiesce waits until no goroutine other than the caller is runnable or running. A hostile
+// frame may be handled in a goroutine the library spawns (handleCall); if that goroutine is
+// going to crash the process it must get the chance to do so while its input is still the
+// journalled one, not after the verdict has been written.
+var stackBuf = make([]byte, 4<<20)
+
+func quiesce() {
+	buf := stackBuf
+	deadline := time.Now().Add(stepTimeout)
+	for calm := 0; calm < 2 && time.Now().Before(deadline); {
+		runtime.Gosched()
+		n := runtime.Stack(buf, true)
+		// the caller itself is the one "running" goroutine
+		if len(reGoState.FindAllIndex(buf[:n], 2)) <= 1 {
+			calm++
+			continue
+		}
+		calm = 0
+		time.Sleep(200 * time.Microsecond)
+	}
+}
+
 func TestC10Child(t *testing.T) {
 	if os.Getenv(envChild) == "" {
 		t.Skip("runs only as a re-executed child of TestC10")
@@ -1091,6 +1115,7 @@ func TestC10Child(t *testing.T) {
 			jw("E %d V %s", i, strconv.Quote(viol))
 			os.Exit(0)
 		}
+		quiesce()
 		jw("E %d ok", i)
 	}
 	if sw != nil {
@@ -1302,6 +1327,9 @@ func (p *parent) confirm(idx int, observed string) {
 
 func (p *parent) confirmNow(idx int, observed string) {
 	msg, bad, h := p.isolated(idx)
+	for try := 0; try < 2 && !bad && h == ""; try++ {
+		msg, bad, h = p.isolated(idx) // a crash in a spawned goroutine is asynchronous: give it two more chances
+	}
 	switch {
 	case h != "":
 		p.harness("input %d [%s]: %s (batch observation: %s)", idx, p.inputs[idx].describe(), h, observed)
